@@ -161,7 +161,7 @@ class ContextReuse(Suite):
                 cfg = Config(Path('data'), name='main', data={'uses': ['pipe.json as n', 'pipe.json as m'], 'tasks': [f'{mod}.Src']},
                              context=arg[0] if len(arg) == 1 else arg, global_vars=copy.deepcopy(b['gv']))
                 ch = cfg.chain()
-                return ch, {n: {'params': {k: pl.to_spec(v) for k, v in t.params.items()}, 'value': pl.to_spec(t.value)}
+                return ch, {n: {'params': {k: pl.to_spec(t.params[k]) for k in t.params.keys()}, 'value': pl.to_spec(t.value)}
                             for n, t in ch.tasks.items()}
 
             def state(ctxs):
@@ -187,8 +187,8 @@ class ContextReuse(Suite):
                 seq.append(copy.deepcopy(got))
                 chains.append(ch)
                 for t in ch.tasks.values():       # the caller's tasks modify what they were given
-                    for v in t.params.values():
-                        scribble(v)
+                    for k in t.params.keys():
+                        scribble(t.params[k])
             for b in case['builds']:
                 alone.append(build(make(case['ctxs']), b)[1])
             return dict(seq=seq, alone=alone, before=before, after=state(kept))
@@ -213,9 +213,68 @@ class ContextReuse(Suite):
         return repr(case)
 
 
+class DataReuse(Suite):
+    """a caller keeps the dict it passes as `data=` (nested values, placeholders) and builds several configs from it - with
+    a context, without one, with other global_vars: every chain is configured as the chain built alone from a fresh copy
+    of the same dict, and the caller's dict still holds what the caller put there.  Runtime check only."""
+    name = 'data_reuse'
+    model = ''
+    VALUES = [5, 'plain', '{X}/f', ['{X}', 1], {'k': ['a{X}', 2]}, [[1], {'d': '{Y}'}], [], None]
+
+    def corpus(self):
+        return [dict(data={'p': 1}, builds=[dict(ctx={'q': 5}, gv=None), dict(ctx=None, gv=None)]),
+                dict(data={'p': ['{X}/f', {'k': '{X}'}], 'q': '{X}'}, builds=[dict(ctx=None, gv={'X': 'one'}), dict(ctx=None, gv={'X': 'two'}),
+                                                                           dict(ctx=None, gv=None)]),
+                dict(data={'p': {'k': [1]}}, builds=[dict(ctx={'p': {'k': [2]}, 'q': [3]}, gv=None), dict(ctx={'q': [4]}, gv=None),
+                                                     dict(ctx=None, gv=None)])]
+
+    def gen(self, rng, tier):
+        out = []
+        for _ in range(30 if tier == 'quick' else 500):
+            data = {k: copy.deepcopy(rng.choice(self.VALUES)) for k in ('p', 'q') if rng.random() < 0.7}
+            builds = [dict(ctx=(None if rng.random() < 0.4 else {k: copy.deepcopy(rng.choice(self.VALUES)) for k in ('p', 'q') if rng.random() < 0.6}),
+                           gv=rng.choice([None, {'X': 'one', 'Y': 'y1'}, {'X': 'two'}])) for _i in range(rng.choice([2, 3, 4]))]
+            out.append(dict(data=data, builds=builds))
+        return out
+
+    def run_impl(self, case):
+        from pathlib import Path
+        from taskchain import Config
+        from ..suites_chain import K, P
+        classes = [dict(K(0, 'Src', params=[P('p', default=[-1]), P('q', default=[-2])]), name='src')]
+        with pl.workspace(dict(classes=classes, files={})) as (d, mod):
+            def build(data, b):
+                cfg = Config(Path('data'), name='main', data=data, context=copy.deepcopy(b['ctx']), global_vars=copy.deepcopy(b['gv']))
+                ch = cfg.chain()
+                return {n: {'params': {k: pl.to_spec(t.params[k]) for k in t.params.keys()}, 'key': t.name_for_persistence}
+                        for n, t in ch.tasks.items()}
+            kept = dict(copy.deepcopy(case['data']), tasks=[f'{mod}.Src'])
+            before = pl.to_spec({k: v for k, v in kept.items() if k != 'tasks'})
+            seq = [build(kept, b) for b in case['builds']]
+            alone = [build(dict(copy.deepcopy(case['data']), tasks=[f'{mod}.Src']), b) for b in case['builds']]
+            return dict(seq=seq, alone=alone, before=before, after=pl.to_spec({k: v for k, v in kept.items() if k != 'tasks'}))
+
+    def oracle(self, case, obs):
+        if 'unexpected_exception' in obs:
+            return f'unexpected exception {obs["unexpected_exception"]}: {obs["text"]}'
+        for i, (a, b) in enumerate(zip(obs['seq'], obs['alone'])):
+            if repr(a) != repr(b):
+                return (f'config {i} ({case["builds"][i]}) built from the caller\'s data dict after the earlier configs gives {a}; built '
+                        f'alone from a fresh copy of the same dict it gives {b}')
+        if repr(obs['before']) != repr(obs['after']):
+            return f'the caller\'s data dict changed: {obs["before"]} -> {obs["after"]}'
+        return None
+
+    def nontrivial(self, case, obs):
+        return len(case['builds']) >= 2
+
+    def key(self, case):
+        return repr(case)
+
+
 class C09(Prop):
     pid = 'C09'
-    suites = [Params(), Aliasing(), ContextReuse()]
+    suites = [Params(), Aliasing(), ContextReuse(), DataReuse()]
     trusted_base = ['"share no mutable values" is a heap property with no meaning in the functional model: it is '
                     'checked by the harness only (object identities, mutation after construction)']
     assumptions = ['contexts are well formed mappings (unique keys, unique namespaces); multi-config parts and nested '
